@@ -5,7 +5,7 @@ import inscripta.biocantor.location  # noqa: F401  (import order: location befor
 from inscripta.biocantor.location.location_impl import CompoundInterval, EmptyLocation, SingleInterval
 from inscripta.biocantor.location.strand import Strand
 
-from vlib.sym import ALL, AND, ANY, IFF, ITE, NOT, OR, SUM  # noqa: F401
+from vlib.sym import ALL, AND, ANY, IFF, ITE, MAX, MIN, NOT, OR, SUM  # noqa: F401
 
 PLUS, MINUS, UNSTRANDED = Strand.PLUS, Strand.MINUS, Strand.UNSTRANDED
 
@@ -131,7 +131,7 @@ def wellformed(loc, allow_overlap=False, allow_adjacent=False):
     if loc is EmptyLocation():
         return True
     bl = blocks_of(loc)
-    conds = [bl[0][0] >= 0, loc.start == bl[0][0], loc.end == bl[-1][1], len(loc) == total_len(bl)]
+    conds = [bl[0][0] >= 0, loc.start == bl[0][0], loc.end == MAX([b[1] for b in bl]), len(loc) == total_len(bl)]
     for s, e in bl:
         conds.append(s < e)
     for (s1, e1), (s2, e2) in zip(bl, bl[1:]):
